@@ -164,6 +164,9 @@ func (s *Sim) Close() {
 	for i := len(s.cleanup) - 1; i >= 0; i-- {
 		s.cleanup[i]()
 	}
+	if os.Getenv("VERIF_APPLOG") != "" { // debugging aid: what the code under test logged during this run
+		fmt.Fprintf(os.Stderr, "---- application log ----\n%s---- end ----\n", s.LogBuf.String())
+	}
 	log.SetOutput(io.Discard)
 	runtime.SimSeed = 0
 	_ = os.RemoveAll(s.Dir)
